@@ -350,6 +350,18 @@ def run(ctx):
         layout = G.layout_from_splits(splits, rng, rng.choice([(0, 0, 0), (1, 1, 0), (1, 1, 1)]), vary=rng.random() < 0.4)
         reader_case(lens, layout, rng.choice(['none', 'le', 'be']), rng.choice([30, 120]), False)
 
+    # physical records at and just below the maximum length (the 16-bit length field), first in the file: with TIF markers the
+    # first marker's 'next' word is then at its largest
+    for total in (65535, 65534, 65532, 65528, 65527, 65523, 65520):
+        for tif in ('le', 'be', 'none') if not ctx.quick or total % 2 else ('le',):
+            trailer = rng.choice([(0, 0, 0), (1, 1, 0), (1, 1, 1)])
+            n0 = total - 4 - 2 * sum(trailer)
+            for shape in ('alone', 'continued'):
+                lens = [n0 if shape == 'alone' else n0 + rng.choice([1, 7, 300]), rng.randint(2, 40), rng.randint(2, 40)]
+                splits = [[n0] if shape == 'alone' else [n0, lens[0] - n0], [lens[1]], G.random_split(rng, lens[2], 8)]
+                layout = G.layout_from_splits(splits, rng, trailer)
+                reader_case(lens, layout, tif, 20, False)
+
     # ---- (3) the real writer ----
     for _ in range(ctx.pick(400, 3000)):
         nrec = rng.choice([1, 2, 4, 12])
